@@ -7,6 +7,7 @@ CONSTANTS
   RunningLoopRaises = FALSE
 CHECK_DEADLOCK FALSE
 INVARIANT IndependentJobsRun
+INVARIANT NoPendingAtEnd
 INVARIANT DependentsNeverRun
 INVARIANT ErrorNamesEveryFailedJob
 INVARIANT FailureIsReported
